@@ -28,11 +28,14 @@ def _cuts_for(rng, raw: bytes, layout: list) -> tuple[list[int], bool]:
     if n <= 512:
         return list(range(n)), True
     cuts = set()
-    for off, ln, _, _ in layout:
+    nent, nrand = (120, 128) if n <= 8192 else (40, 32)  # a prefix decode costs O(len): fewer cuts for long encodings
+    third = nent // 3
+    entries = layout if len(layout) <= nent else layout[:third] + rng.sample(layout[third:-third], third) + layout[-third:]
+    for off, ln, _, _ in entries:
         for c in (off - 1, off, off + 1, off + ln - 1, off + ln):
             if 0 <= c < n:
                 cuts.add(c)
-    for _ in range(256):
+    for _ in range(nrand):
         cuts.add(rng.randrange(n))
     cuts.add(n - 1)
     cuts.add(0)
@@ -48,13 +51,13 @@ def c06_worker(res: Result, i: int, n: int) -> None:
     st.start()
     by_role: dict[str, int] = {}
     distinct: set[bytes] = set()
-    per_class = 10 if res.tier == "quick" else 250
+    per_class = 7 if res.tier == "quick" else 200
     max_ratio = 0.0
     try:
         for cls in classes:
             spec = describe.spec_from_class(cls)
             rng = common.rng_for("C06", walk.class_path(cls))
-            g = gen.Gen(rng, "canonical", big_prob=0.0)
+            g = gen.Gen(rng, "canonical", big_prob=0.0, long_arrays=False)  # a prefix decode is O(len): keep encodings moderate
             trees = g.each_choice(spec, extra_random=0)
             rng.shuffle(trees)
             trees = trees[:per_class - 2] + [g.struct(spec) for _ in range(2)]
@@ -78,7 +81,7 @@ def c06_worker(res: Result, i: int, n: int) -> None:
                 for c in cuts:
                     role, _ = refcodec.role_at(layout, c)
                     by_role[role] = by_role.get(role, 0) + 1
-                    kinds = ("ro", "bytesio") if c % 5 == 0 else ("ro",)
+                    kinds = ("ro", "bytesio") if (c % 5 == 0 or res.counters.get("instances", 0) % 8 == 1) else ("ro",)
                     for kind in kinds:
                         res.count("cuts")
                         src = ReadOnlySource(raw, cut=c) if kind == "ro" else io.BytesIO(raw[:c])
@@ -245,6 +248,7 @@ def c10_case(res: Result, st: steps.Steps, cls: type, reader, data: bytes, kind:
         ratio = used / (len(data) + 4)
         name = type(exc).__name__
         outcomes[name] = outcomes.get(name, 0) + 1
+        _c10_other_source(res, st, cls, reader, data, ("raised", name), payload)
         return ratio
     except steps.StepBudgetExceeded:
         st.disarm()
@@ -283,7 +287,39 @@ def c10_case(res: Result, st: steps.Steps, cls: type, reader, data: bytes, kind:
         res.violation(f"returned-unencodable:{_exc_key(exc)}",
                       f"{walk.class_path(cls)}: decoder returned an entity the encoder rejects: {exc!r}",
                       payload(returned=repr(out)[:1500], error=traceback.format_exc()))
+    _c10_other_source(res, st, cls, reader, data, ("returned", out), payload)
     return ratio
+
+
+def _c10_other_source(res: Result, st: steps.Steps, cls: type, reader, data: bytes, first: tuple, payload) -> None:  # noqa: ANN001
+    """The same bytes from a seekable in-memory buffer must have the same outcome (a decoder may not behave differently, or
+    run past the end, just because the source offers tell/seek/getbuffer)."""
+    buf = io.BytesIO(data)
+    st.arm(_budget(len(data)))
+    try:
+        second: tuple = ("returned", reader(buf))
+    except steps.StepBudgetExceeded:
+        second = ("budget", None)
+    except BaseException as exc:  # noqa: BLE001
+        second = ("raised", type(exc).__name__)
+        if isinstance(exc, (KeyboardInterrupt, SystemExit)):
+            raise
+    finally:
+        st.disarm()
+    res.count("second_source_runs")
+    if second[0] != first[0] or (first[0] == "raised" and first[1] != second[1]) or (first[0] == "returned" and not _same_value(first[1], second[1])):
+        res.violation(f"source-dependent:{first[0]}-vs-{second[0]}",
+                      f"{walk.class_path(cls)}: the same {len(data)} bytes give {first[0]} {first[1] if first[0] == 'raised' else ''} from a read-only source "
+                      f"but {second[0]} {second[1] if second[0] == 'raised' else ''} from a BytesIO", payload())
+    elif buf.tell() > len(data):
+        res.violation("position-past-end", f"{walk.class_path(cls)}: after decoding, the in-memory buffer is at {buf.tell()} of {len(data)} bytes", payload())
+
+
+def _same_value(a: object, b: object) -> bool:
+    try:
+        return a == b or repr(a) == repr(b)  # repr covers NaN
+    except Exception:  # noqa: BLE001
+        return False
 
 
 def c10_worker(res: Result, i: int, n: int) -> None:
